@@ -234,8 +234,9 @@ func completeLine(spec treeSpec, words []string) (doc exportDoc, raw string, per
 }
 
 type parseIn struct {
-	Tree  treeSpec `json:"tree"`
-	Words []string `json:"words"` // the last one is the word under the cursor
+	Tree      treeSpec `json:"tree"`
+	Words     []string `json:"words"`     // the last one is the word under the cursor
+	HiddenEnv bool     `json:"hiddenEnv"` // CARAPACE_HIDDEN=1
 }
 
 func runParse(raw json.RawMessage) interface{} {
@@ -247,6 +248,10 @@ func runParse(raw json.RawMessage) interface{} {
 		os.Unsetenv(k)
 	}
 	carapace.VerifSetMatch(false)
+	if in.HiddenEnv {
+		os.Setenv("CARAPACE_HIDDEN", "1")
+		defer os.Unsetenv("CARAPACE_HIDDEN")
+	}
 	doc, rawOut, perr := completeLine(in.Tree, in.Words)
 	out := map[string]interface{}{"export": doc, "panic": perr}
 	if len(doc.Values) == 0 && len(doc.Messages) == 0 && perr == "" {
@@ -474,9 +479,33 @@ func genLine(r *rng, t treeSpec) []string {
 	return words
 }
 
+func indexOfCmd(t treeSpec, name string) int {
+	for i, c := range t.Cmds {
+		if c.Name == name {
+			return i
+		}
+	}
+	return 0
+}
+
 func genParse(r *rng, tier string) interface{} {
 	t := genTree(r)
-	return parseIn{Tree: t, Words: genLine(r, t)}
+	if r.chance(10) {
+		// a flag that sits in two mutually exclusive groups: another member of either group blocks it
+		c := &t.Cmds[r.intn(len(t.Cmds))]
+		c.Flags = []flagSpec{{Name: "all", Kind: "bool", Mutex: []int{0, 1}}, {Name: "name", Kind: "string", Mutex: []int{0}},
+			{Name: "id", Kind: "string", Mutex: []int{1}}, {Name: "free", Kind: "bool", Short: "f"}}
+		if r.chance(50) {
+			c.Flags[0], c.Flags[1] = c.Flags[1], c.Flags[0]
+		}
+		path := []string{}
+		for k := indexOfCmd(t, c.Name); k > 0; k = t.Cmds[k].Parent {
+			path = append([]string{t.Cmds[k].Name}, path...)
+		}
+		given := pick(r, [][]string{{"--name", "x"}, {"--id", "y"}, {"--all"}, {}})
+		return parseIn{Tree: t, Words: append(append(path, given...), pick(r, []string{"-", "--", "--a"}))}
+	}
+	return parseIn{Tree: t, Words: genLine(r, t), HiddenEnv: r.chance(10)}
 }
 
 func init() {
